@@ -186,4 +186,56 @@ theorem build_tran_decode (fmt name : Str) (props : List (Str × List Str)) (sou
 /-- the empty pipeline does not build -/
 theorem build_empty : buildPipeline [] = none := by simp [buildPipeline]
 
+/-! ## operation table, geographic boxes, paths -/
+
+/-- every declared operation is found under its own name in its own position, and only there -/
+theorem findOp_table : ∀ o ∈ opTable, findOp o.read o.name = some o ∧ findOp (!o.read) o.name = none := by decide
+
+/-- a box needs exactly four numbers -/
+theorem bboxOk_length (vs : List Str) (h : bboxOk vs = true) : vs.length = 4 := by
+  unfold bboxOk at h
+  split at h
+  · rename_i w s e n heq
+    have := congrArg List.length heq
+    simpa using this
+  · cases h
+
+/-- `filter_bbox` whose numbers fail `GeoBBox::check` (reversed, out of range, inf, nan) is not built -/
+theorem build_bad_bbox (fmt : Str) (props : List (Str × List Str)) (sources : List (List Node)) (rest : List Node)
+    (h : bboxOk ((lookupProp props "bbox".toList).getD []) = false) :
+    buildTail fmt (.mk "filter_bbox".toList props sources :: rest) = none := by
+  have hf : findOp false "filter_bbox".toList = some ⟨"filter_bbox".toList, false, false, [("bbox".toList, .f64x4Req)]⟩ := by decide
+  have h1 : ¬ ("filter_bbox".toList = "vectortiles_update_properties".toList) := by decide
+  have hbt : buildTran fmt (.mk "filter_bbox".toList props sources) = none := by
+    simp only [buildTran, hf]
+    split
+    · rfl
+    · simp; exact h
+  simp only [buildTail, hbt]
+
+/-- an absolute file name stands for itself -/
+theorem pathJoin_absolute (dir t : Str) : pathJoin dir ('/' :: t) = '/' :: t := rfl
+
+/-- a relative file name is put behind the directory of the VPL file, with one separator -/
+theorem pathJoin_relative (dir name : Str) (hn : ∀ t, name ≠ '/' :: t) (hd : dir ≠ []) (hs : dir.getLast? ≠ some '/') :
+    pathJoin dir name = dir ++ '/' :: name := by
+  unfold pathJoin
+  cases name with
+  | nil => cases dir with
+    | nil => exact absurd rfl hd
+    | cons c t => simp [hs]
+  | cons c t =>
+    have hc : c ≠ '/' := fun e => hn t (by rw [e])
+    cases dir with
+    | nil => exact absurd rfl hd
+    | cons d u => simp [hs]
+    all_goals skip
+
+/-- what `from_container` hands to the reader is the name resolved **once** (fix 2ce988ce) … -/
+theorem readerPath_once (dir name : Str) : readerPath dir name = resolvePath dir name := rfl
+
+/-- … resolving twice, as the code did, is different for a relative directory -/
+theorem double_join_differs :
+    pathJoin "rel".toList (pathJoin "rel".toList "x".toList) ≠ pathJoin "rel".toList "x".toList := by decide
+
 end VtModel.Vpl
